@@ -5,13 +5,24 @@
    treewidth <= gonality (van Dobben de Bruyn - Gijswijt), out of reach here: bounded only. The multipartite closed form is refuted (finding). *)
 From Coq Require Import ZArith List Bool Lia.
 Import ListNotations.
-From CF Require Import ZSum ListAux Defs Core Machines Config BoundsLink Generated.
+From CF Require Import ZSum ListAux Defs Core Machines Config BoundsLink Generated PyLib Translated TranslatedLink.
 Open Scope Z_scope.
 
 (* complete graphs: is_gonality (n - 1), all n >= 2 *)
 Theorem C19_complete_graph_gonality : forall k, is_gonality (Vg (Kn k)) (mult (Kn k)) (S k) /\ nv (Kn k) = S (S k) /\ wfb (Kn k) = true.
 Proof. intros k. split; [apply Kn_gonality|]. split; [apply Kn_nv|apply Kn_wf]. Qed.
 Print Assumptions C19_complete_graph_gonality.
+(* tie to the source text (Translated.v is regenerated from /repo's current source on every run): the closed form returned by
+   complete_graph_gonality is refused below 1 and IS the gonality of K_n for every n >= 2; complete_multipartite_gonality is the formula
+   refuted below *)
+Theorem C19_source_complete_graph_gonality : (forall n, n < 1 -> Translated.complete_graph_gonality n = None) /\
+  forall k, exists gon, Translated.complete_graph_gonality (Z.of_nat (nv (Kn k))) = Some (Z.of_nat gon) /\ is_gonality (Vg (Kn k)) (mult (Kn k)) gon.
+Proof. split; [exact complete_graph_gonality_refuses|exact complete_graph_gonality_exact]. Qed.
+Print Assumptions C19_source_complete_graph_gonality.
+Theorem C19_source_multipartite_formula : forall parts, Forall (fun x => 0 <= x) parts ->
+  Translated.complete_multipartite_gonality parts = multipartite_formula_as_implemented (map Z.to_nat parts).
+Proof. exact complete_multipartite_gonality_eq. Qed.
+Print Assumptions C19_source_multipartite_formula.
 (* upper bounds for simple graphs without isolated vertices (in particular connected simple graphs on >= 2 vertices) *)
 Theorem C19_n_minus_independent_set : forall g, wfb g = true -> forall I : nat -> bool, simple g -> no_isolated g -> independent g I ->
   exists D, effective (Vg g) D /\ deg (Vg g) D = Z.of_nat (nv g) - Z.of_nat (length (filter I (Vg g))) /\ rank_ge (Vg g) (mult g) D 1.
